@@ -216,3 +216,21 @@ def declare_events(C):
     for k in ("post", "post_boolean", "post_relay", "post_queue"):
         C.ext("EventManager.%s" % k, model=make_post(k),
               trusted_reason="event posting recorded as a trace effect (dispatch verified under C01/C02)")
+
+
+# ---------------------------------------------------------------- native demos as finite checks
+def native_demo_check(demo, what):
+    """a stand-alone history on the REAL code (replay/demos/<demo>, run with /venv python on the tree under check): exit 0
+    = the property holds on that history.  Used where a contract rests on an assumed relation whose real meaning is a
+    few lines of Python (labelled finite, not proved)."""
+    def check(C):
+        import os
+        import subprocess
+        from pyvc import extract
+        here = os.path.dirname(os.path.dirname(os.path.abspath(__file__)))
+        r = subprocess.run(["/venv/bin/python", os.path.join(here, "replay", "demos", demo)], capture_output=True,
+                           text=True, timeout=600, cwd=extract.REPO, env=dict(os.environ, PYTHONPATH=extract.REPO))
+        tail = (r.stdout + r.stderr).strip().splitlines()[-1:] or [""]
+        return [("native: %s (replay/demos/%s)" % (what, demo), r.returncode == 0,
+                 "holds" if r.returncode == 0 else "FAILS: " + " ".join((r.stdout + r.stderr).split())[-400:])]
+    return check
